@@ -27,7 +27,7 @@ ASSUMPTIONS = [
     "instants within 0.1 s of a deadline (responses, connection changes) are not judged; after a reset the next deadline may count from any instant between the close and the re-establishment",
     "any delivered console-version message counts as a response, solicited or not",
 ]
-PROBES = ["c08.full_buffer_at_tick", "c08.other_extended_traffic", "c08.blocked_dead_link", "c08.silence_from_start", "c08.silence_after_response", "c08.silence_after_reset", "c08.late_answer", "c08.blackhole", "c08.bare_manager",
+PROBES = ["c08.second_system_in_process", "c08.full_buffer_at_tick", "c08.other_extended_traffic", "c08.blocked_dead_link", "c08.silence_from_start", "c08.silence_after_response", "c08.silence_after_reset", "c08.late_answer", "c08.blackhole", "c08.bare_manager",
           "c08.reset_expected", "c08.second_reset_expected", "c08.all_answered", "c08.outage_over_tick"]
 
 
@@ -93,8 +93,14 @@ def generate(rng, index: int, tier: str) -> dict:
         # the API object exists from t = 0; init() may be called much later - monitoring starts when initialisation completes
         t_init = rng.choice([0.0, 0.0, 0.0, 60.0, 400.0])
         tl = [{"at": 0.0, "op": "console.script", "kind": "version_request", "actions": ["prompt"] + acts}, {"at": t_init, "op": "user.init"}]
+        second = rng.random() < 0.2
+        if second:
+            # the process also drives another AirTouch system (either generation), initialised before or after this one; its
+            # heartbeat monitoring is its own business
+            tl.append({"at": rng.choice([0.0, t_init + 20.0, t_init + 100.0]) if t_init == 0.0 else rng.choice([0.0, t_init - 30.0, t_init + 100.0]),
+                       "op": "user.second_system", "gen": rng.choice([4, 5])})
         end = t_init + (n + 2) * interval + timeout + 10.0
-        info = {"bare": False, "interval": interval, "timeout": timeout, "style": style}
+        info = {"bare": False, "interval": interval, "timeout": timeout, "style": style, "second_system": second}
         sc = {"gen": gen, "mode": "api", "installation": inst, "knobs": knobs, "timeline": tl, "end": end, "info": info}
     if blocked:
         first = (t_s if bare else t_init + 0.1)
@@ -180,6 +186,8 @@ def execute(sc: dict) -> dict:
         probes["c08.blocked_dead_link"] = 1
     if info.get("full_buffer_at_tick"):
         probes["c08.full_buffer_at_tick"] = 1
+    if info.get("second_system"):
+        probes["c08.second_system_in_process"] = 1
     if info.get("other_extended_traffic"):
         probes["c08.other_extended_traffic"] = 1
 
